@@ -31,6 +31,10 @@ SCRIPTS = [
     {'name': 'override-parent-child', 'code': PRE + 'from pedal.sandbox.feedbacks import runtime_error, name_error, type_error\n'
      'runtime_error.override(title="Custom Runtime")\nname_error.override(title="Custom Name", muted=False)\n'
      'type_error.override(title="Custom Type")\nassert_equal(call("add", 1, 2), 3)\n'},
+    {'name': 'override-parent-only', 'code': PRE + 'from pedal.sandbox.feedbacks import runtime_error\nruntime_error.override(title="Parent Title")\n'
+     'assert_equal(call("add", 1, 2), 3)\n'},
+    {'name': 'override-child-only', 'code': PRE + 'from pedal.sandbox.feedbacks import zero_division_error, name_error\n'
+     'zero_division_error.override(title="Child ZDE Title")\nname_error.override(title="Child Name Title")\nassert_equal(call("add", 1, 2), 3)\n'},
     {'name': 'override-twice', 'code': PRE + 'explain.override(title="First")\nexplain.override(title="Second")\n'
      'gently.override(priority="high")\nexplain("told you", label="x1")\n'},
     {'name': 'suppress', 'code': PRE + 'suppress("runtime")\nsuppress("algorithmic")\nsuppress(label="unused_variable")\n'
@@ -73,8 +77,9 @@ SUBMISSIONS = [
     {'name': 'add-ok', 'files': {'answer.py': 'def add(a, b):\n    return a + b\nprint(add(1, 2))\nprint("done")\n'}},
     {'name': 'add-wrong', 'files': {'answer.py': 'def add(a, b):\n    return a - b\nprint(add(1, 2))\n'}},
     {'name': 'syntax', 'files': {'answer.py': 'def add(a, b)\n    return a + b\n'}},
-    {'name': 'runtime', 'files': {'answer.py': 'def add(a, b):\n    return a + b\nprint(undefined_name)\n'}},
-    {'name': 'typeerr', 'files': {'answer.py': 'def add(a, b):\n    return a + b\nx = "a" + 1\n'}},
+    {'name': 'runtime', 'files': {'answer.py': 'def add(a, b):\n    return a + b\nprint(add(1, 2))\nprint(int("five"))\n'}},
+    {'name': 'zerodiv', 'files': {'answer.py': 'def add(a, b):\n    return a + b\nprint(add(1, 2))\nprint(1 / 0)\n'}},
+    {'name': 'typeerr', 'files': {'answer.py': 'def add(a, b):\n    return a + b\nprint(add(1, 2))\nprint(len(5))\n'}},
     {'name': 'turtle-assign', 'files': {'answer.py': 'import turtle\nturtle.forward = 50\ndef add(a, b):\n    return a + b\n'}},
     {'name': 'turtle-use', 'files': {'answer.py': 'import turtle\nturtle.forward(100)\ndef add(a, b):\n    return a + b\n'}},
     # the same student confusion (assigning to a library function instead of calling it) for the other modules TIFA knows
@@ -106,7 +111,14 @@ ALWAYS = [(('pools-subclass', 'add-ok'), ('pools-c', 'add-ok')), (('pools-subcla
           (('tifa-settings', 'string-annotation'), ('plain', 'string-annotation')), (('tifa-settings', 'unused'), ('plain', 'unused')),
           (('tifa-settings', 'boolop'), ('tifa-settings', 'boolop')),
           (('plain', 'annotated'), ('plain', 'bare-typed')), (('plain', 'annotated-2'), ('plain', 'bare-typed')),
-          (('static+tifa', 'annotated-2'), ('static+tifa', 'bare-list')), (('crash', 'annotated-2'), ('plain', 'bare-typed'))]
+          (('static+tifa', 'annotated-2'), ('static+tifa', 'bare-list')), (('crash', 'annotated-2'), ('plain', 'bare-typed')),
+          # a parent feedback class overridden in one grading, a subclass of it in the next, then a grading that shows the subclass
+          (('override-parent-only', 'add-ok'), ('override-child-only', 'add-ok'), ('plain', 'zerodiv')),
+          (('override-parent-only', 'runtime'), ('override-child-only', 'zerodiv'), ('plain', 'runtime')),
+          (('override-parent-child', 'add-ok'), ('override-child-only', 'runtime'), ('plain', 'runtime')),
+          (('override-child-only', 'add-ok'), ('override-parent-only', 'add-ok'), ('plain', 'zerodiv')),
+          (('pools', 'add-ok'), ('override-twice', 'add-ok'), ('pools-b', 'add-ok')),
+          (('crash', 'add-ok'), ('override-child-only', 'zerodiv'), ('plain', 'zerodiv'))]
 FIELDS = ('label', 'title', 'message', 'correct', 'score', 'output', 'error')
 
 
@@ -141,8 +153,8 @@ def correspondence(ctx):
                 hists.append([[sc, b], [sc, a], [sc, b]])
     # shapes that are always run: (script, submission) then (script, submission), by name
     snames = [x['name'] for x in SCRIPTS]
-    for (sa, ba), (sb, bb) in ALWAYS:
-        hists.append([[snames.index(sa), names.index(ba)], [snames.index(sb), names.index(bb)]])
+    for steps in ALWAYS:
+        hists.append([[snames.index(sa), names.index(ba)] for sa, ba in steps])
     for _ in range(n_hist):
         h = [[rng.randrange(ns), rng.randrange(nb)] for _ in range(rng.randrange(2, 7))]
         if rng.random() < 0.3:
